@@ -54,6 +54,10 @@ def run_property(prop, tier, repo, evidence=True, only_rule=None, quiet=False, b
                     f'{floor} confirmed by hand: the rule has gone (partly) blind')
 
     extra = {}
+    if spec['level'] == 'translation_validation':
+        regen = [r for r in results if r.rule == 'R-REGEN']
+        extra['programs'] = sum(len(r.instances) + len(r.findings) for r in regen)
+        extra['disagreements_checked'] = sum(len(r.findings) for r in regen)
     if tier == 'thorough' and battery and not only_rule:
         from . import battery as bat
         extra['mutant_battery'] = bat.run_for_property(prop, repo)
